@@ -1180,7 +1180,10 @@ def integer_bounds_oracle(ctx):
                           f"but the preimage of that y is {x_of_y32.tolist()} (off by {float(np.max(np.abs(r32 - x_of_y32))):.3g})",
                           case=dict(unit="integer-bounds", kind="float32-target", lower=lo, upper=hi, y=np.asarray(y32, dtype=float).tolist(), map="TriangularAffine" if rep % 2 else "Affine"),
                           found_input=True, unit=u.name, expected=x_of_y32.tolist(), observed=r32.tolist(), broken="float32 target / C10_search_within_tol")
-        for kind in ("python-int", "int-array"):
+        # the documented argument order (lower, upper, tol, max_iter) given positionally (seeded change C10f swapped two fields: the
+        # positional call then stored tol = 200, max_iter = 0)
+        roots["positional"] = np.asarray(AutoregressiveBisectionInverter(float(lo), float(hi), 1e-9, 200)(bij, y), dtype=float)
+        for kind in ("python-int", "int-array", "positional"):
             u.count((rep, kind, lo, hi, x.tolist()), tag=kind)
             if not (np.allclose(roots[kind], roots["float"], rtol=0, atol=1e-12) and np.allclose(roots[kind], x, rtol=0, atol=1e-6)):
                 ctx.violation(sig=f"integer-bounds:{kind}", what=f"AutoregressiveBisectionInverter(lower={lo}, upper={hi}) given as {kind}: returns {roots[kind].tolist()} "
